@@ -434,6 +434,7 @@ class Verifier(Engine):
         outs = []
         for s, v in (self.ev(e.value, st) if e.value is not None else [(st, VNone())]):
             v = self.deref(s, v)
+            v = self.snapshot(s, v)
             if c.mode == "first":
                 outs.append((s, Signal("yield-first", v)))
                 continue
@@ -444,6 +445,25 @@ class Verifier(Engine):
                 s.env["yielded"] = VList(VS.cat(y.t, VS.unit(box(v))), y.et)
             outs.append((s, None))
         return outs
+
+    def snapshot(self, st, v):
+        """A cstruct instance that leaves the function (yield) is recorded by value: a flat tuple of its fields in
+        declaration order, an enum-typed field as (enum tag, integer value)."""
+        if isinstance(v, VRef):
+            cell = st.heap.get(v.ident)
+            if isinstance(cell, dict) and str(cell.get("__class__", "")).startswith("cstruct:"):
+                items = []
+                for k, x in cell.items():
+                    if k.startswith("__"):
+                        continue
+                    x = self.deref(st, x)
+                    if isinstance(x, VRecord) and x.cls == "cenum":
+                        items.append(VInt(enum_tag(x.fields["enum"].py[2])))
+                        items.append(x.fields["value"])
+                    else:
+                        items.append(x)
+                return VTuple(items)
+        return v
 
     def ex_Assign(self, stmt, st):
         outs = []
@@ -923,6 +943,11 @@ class Verifier(Engine):
         if isinstance(cur, VRecord):
             return VRecord(cur.cls, {k: self.fresh_like(st, f"{name}_{k}", x) for k, x in cur.fields.items()})
         raise Unsupported(f"cannot havoc {name} = {cur!r}")
+
+
+def enum_tag(name):
+    import zlib
+    return zlib.crc32(name.encode()) & 0xFFFF
 
 
 def mentions_aes(c):
